@@ -7,6 +7,13 @@ M: spec/Hostile.tla lays valid frames out as named parts (every length / count /
 R: every plan's octets are sent to the real server over the virtual socket at three session points (alone; after a valid
    Register; followed in the same chunk by a valid read), plus seeded random octet strings and random splices of
    valid frames, each under a watchdog.
+   "Reframed" plans mutate the CIP message itself (service, path, counts, every data element of a Write Tag, a Set Attribute
+   Single, a bundle, a Forward Open) and frame it again with consistent lengths, so the mutation reaches the request handlers.
+U: the datagram service (spec/Udp.tla, model-checked in MC_Udp: independence of datagrams, one reply per well-formed request):
+   the same hostile octets, every truncation and an oversized copy of every well-formed frame, and random mixes are fed as
+   datagrams between well-formed ones from several peers to the real enip_srv_udp (scripted recvfrom); TLC (UdpTrace) decides
+   that every well-formed datagram is answered as if it had come alone, replies go to the sender, tags keep their shape and
+   change only by a write the model explains.
 V: TLC (HostileTrace) checks the contract on every session: it finished in time, every reply is a well-framed frame,
    nothing happens after the close, the connection is closed at the end, a tag changed only if a write was acknowledged
    with success, and a new session (register, list services, read back) is served correctly afterwards.
@@ -26,7 +33,7 @@ LEVEL = "fault_enumeration"
 def exec_hostile(job):
     from .. import sim, vsock
     import struct
-    cfg, chunks, label, intact = job
+    cfg, chunks, label, wexp = job
     dev = sim.Device(cfg)
     mem0 = [[[1, 0], [2, 0], [3, 0]], [[4, 0, 0, 0]]]
     dev.set_mem(mem0)
@@ -51,8 +58,130 @@ def exec_hostile(job):
         others = [e["a"] for e in ev2] == ["recv", "proc", "send", "proc", "send", "eof", "close"] and dev.get_mem() == after
     nbytes = sum(len(c) for c in chunks)
     return {"ev": ev, "before": mem0, "after": after, "others": others, "finished": finished and wall < 2.0 + 0.01 * nbytes,
-            "wexp": [[[1, 0], [5, 0], [6, 0]], [[4, 0, 0, 0]]] if intact else [],
+            "wexp": wexp,
             "label": label, "chunks": [list(bytearray(c)) for c in chunks], "wall": round(wall, 3)}
+
+
+def exec_udp(job):
+    """job = (cfg, mem0, grams [{"kind", "f"?, "peer", "b": octets}], label): the real UDP service loop over the datagrams"""
+    from .. import sim, usock
+    import sys
+    cfg, mem0, grams, label = job
+    sys.unraisablehook = lambda u: None          # the repo's generators raise while being closed after a failed parse: stderr noise only
+    dev = sim.Device(cfg)
+    dev.set_mem(mem0)
+    sim.reset_random(1)
+    result = {}
+
+    def target():
+        result["ev"] = usock.run([(bytes(bytearray(g["b"])), g["peer"]) for g in grams], dev.get_mem)
+    th = threading.Thread(target=target, daemon=True)
+    t0 = time.time()
+    th.start()
+    th.join(20)
+    wall = time.time() - t0
+    finished = not th.is_alive()
+    evs = result.get("ev", [{"a": "dgram", "mem": mem0}])
+    after = dev.get_mem()
+    shape = [[len(e) for e in t] for t in after] == [[len(e) for e in t] for t in mem0]
+    nbytes = sum(len(g["b"]) for g in grams)
+    sc = {"cfg": cfg, "pers": {"k": "any"}, "mem0": mem0, "grams": [{k: v for k, v in g.items() if k != "b"} for g in grams]}
+    return {"sc": sc, "ev": evs, "finished": finished and wall < 2.0 + 0.01 * nbytes, "shape": shape, "label": label,
+            "octets": [g["b"] for g in grams], "wall": round(wall, 3)}
+
+
+def udp_part(ctx, wd, rng, plans, valid, wmsgs):
+    """the datagram service: hostile datagrams between well-formed ones, several peers (Udp / UdpTrace)"""
+    from .. import serverlib
+    ev = ctx.ev
+    cfgp = os.path.join(wd, "udp_mc.cfg")
+    tlc.write_cfg(cfgp, ["SPECIFICATION MSpec", "INVARIANT Independence", "INVARIANT OneReplyEach", "INVARIANT NoAck", "CHECK_DEADLOCK FALSE",
+                         "CONSTANTS", " MaxGrams = %d" % (3 if ctx.quick else 4)])
+    res = tlc.run("MC_Udp", cfgp, spec_dir=wd, timeout=1700)
+    ev.tlc("udp-model", res)
+    if res.violated:
+        ctx.spec_violation(res, "udp-model")
+    scs = serverlib.emit_scenarios(ctx, wd, 1, "any", "all", "udpgood")
+    if not scs:
+        return
+    cfg, mem0 = scs[0]["sc"]["cfg"], [[[1, 0], [2, 0], [3, 0]], [[4, 0, 0, 0]]]
+    goods = [{"kind": "good", "f": s["sc"]["frames"][0], "b": s["fb"][0]} for s in scs]
+
+    def good(i, peer):
+        return dict(goods[i % len(goods)], peer=peer)
+    jobs = []
+    n = 0
+    for p in plans:
+        n += 1
+        bad = {"kind": "bad", "peer": 1 + n % 2, "b": p["b"], "intact": bool(p["intact"]), "wreq": p["wreq"]}
+        jobs.append((cfg, mem0, [good(n, 1), bad, good(n + 3, 1), good(n + 5, 2)], "udp/%s/%s/%s" % (p["base"], p["part"], p["op"])))
+    for i, g in enumerate(goods):                       # every truncation and an oversized copy of every well-formed frame
+        cuts = range(len(g["b"])) if not ctx.quick else sorted(set([0, 1, 23, 24, 25, len(g["b"]) - 1] + [rng.randrange(len(g["b"])) for _ in range(4)]))
+        for k in cuts:
+            if k < len(g["b"]):
+                jobs.append((cfg, mem0, [{"kind": "bad", "peer": 1, "b": g["b"][:k], "intact": False}, good(i, 1 + k % 2), good(i + 4, 2)], "udp/truncated/%d/%d" % (i, k)))
+        jobs.append((cfg, mem0, [{"kind": "bad", "peer": 2, "b": g["b"] + g["b"][:7], "intact": False}, good(i, 2), good(i + 1, 1)], "udp/oversized/%d" % i))
+    for k in range(150 if ctx.quick else 3000):        # random mixes
+        grams = []
+        for _ in range(rng.randint(2, 6)):
+            if rng.random() < 0.5:
+                grams.append(good(rng.randrange(len(goods)), rng.randint(1, 3)))
+            else:
+                kind = rng.randrange(3)
+                if kind == 0:
+                    b = [rng.randrange(256) for _ in range(rng.choice([0, 1, 7, 23, 24, 25, 40, 100, 600]))]
+                elif kind == 1:
+                    b = list(valid[rng.choice(sorted(valid))])
+                    for _ in range(rng.choice([1, 2, 5])):
+                        b[rng.randrange(len(b))] ^= 1 << rng.randrange(8)
+                else:
+                    a, c = rng.choice(sorted(valid)), rng.choice(sorted(valid))
+                    b = valid[a][:rng.randrange(len(valid[a]))] + valid[c][rng.randrange(len(valid[c])):]
+                wx, wr = intact_of(wmsgs, b)
+                grams.append(dict({"kind": "bad", "peer": rng.randint(1, 3), "b": b, "intact": bool(wx)}, **({"wreq": wr} if wx else {})))
+        grams.append(good(k, 1))
+        jobs.append((cfg, mem0, grams, "udp/random/%d" % k))
+    lines = core.pmap(exec_udp, jobs, chunksize=8)
+    for ln in lines:
+        ev.case(key="udp" + json.dumps(ln["octets"]), nontrivial=any(g["kind"] == "bad" for g in ln["sc"]["grams"][:-1]))
+    ev.sample({"label": lines[3]["label"], "datagrams": [dict(kind=g["kind"], peer=g["peer"], octets=len(b)) for g, b in zip(lines[3]["sc"]["grams"], lines[3]["octets"])],
+               "events": [{k: (v if k != "b" else v[:30]) for k, v in e.items()} for e in lines[3]["ev"]]})
+    fd, path = tempfile.mkstemp(prefix="udp_", suffix=".ndjson")
+    with os.fdopen(fd, "w") as f:
+        for ln in lines:
+            f.write(json.dumps({k: ln[k] for k in ("sc", "ev", "finished", "shape")}, separators=(",", ":")) + "\n")
+    try:
+        r3 = tlc.run("UdpTrace", "UdpTrace.cfg", env={"TRACE_FILE": path}, timeout=2400)
+    finally:
+        os.unlink(path)
+    ev.tlc("udp-contract", r3)
+    want = sum(len(ln["ev"]) + 1 for ln in lines)
+    rejected = {}
+    for j in r3.json:
+        if "tid" in j:
+            rejected.setdefault(j["tid"], j)
+    if not rejected and r3.distinct != want:
+        ctx.machinery.append("UdpTrace visited %d states, expected %d" % (r3.distinct, want))
+    classes = {}
+    for tid, j in rejected.items():
+        classes.setdefault(j["why"], []).append((lines[tid - 1], j["at"]))
+    for why, lst in sorted(classes.items()):
+        print("  rejected-class udp %s x%d e.g. %s" % (why, len(lst), lst[0][0]["label"]))
+        for ln, at in lst:
+            ctx.violation("udp_%s" % why, {"why": why, "udp": True, "label": ln["label"], "octets": ln["octets"], "grams": ln["sc"]["grams"], "events": ln["ev"], "at": at},
+                          what="datagram service %s: %s at event %d; events %s" % (ln["label"], why, at, json.dumps([{k: (v if k not in ("b", "mem") else len(v)) for k, v in e.items()} for e in ln["ev"]])[:400]))
+    ev.extra.update({"udp_runs": len(lines), "udp_max_wall_s": max(ln["wall"] for ln in lines)})
+
+
+def contains(big, small):
+    big, small = bytes(bytearray(big)), bytes(bytearray(small))
+    return small in big
+
+
+def intact_of(wmsgs, octets):
+    """the spec's write messages that the octets still contain completely -> (their expected memories, the first one's request)"""
+    hit = [w for w in wmsgs if contains(octets, w["b"])]
+    return [w["wexp"] for w in hit], (hit[0]["wreq"] if hit else None)
 
 
 def main(ctx):
@@ -68,20 +197,22 @@ def main(ctx):
     if len(plans) != res.distinct or not cfgs:
         ctx.machinery.append("plan emission incomplete %d/%d" % (len(plans), res.distinct))
         return
-    cfg, register, read = cfgs[0]["cfg"], cfgs[0]["register"], cfgs[0]["read"]
-    ev.rule = ("cases: mutation plans (5 base frames x up to 36 named parts x 10 operators) x 3 session points, plus seeded random "
+    cfg, register, read, wmsgs = cfgs[0]["cfg"], cfgs[0]["register"], cfgs[0]["read"], cfgs[0]["wmsgs"]
+    ev.rule = ("cases: mutation plans (6 base frames x up to 36 named parts x 10 operators, on the frame and on the re-framed message) x 3 session points, "
+               "the same plans / truncations / oversized copies / random mixes as datagrams between well-formed datagrams (UDP service), plus seeded random "
                "octet strings (0..600 octets) and random splices / bit flips of valid frames.  Non-trivial: the mutated octets "
                "differ from the valid frame in a length, count, offset, size or type field (every plan), or random input "
                "longer than a header.")
-    ev.assumptions = ["virtual socket around the real enip_srv_tcp; the listener (network.server_main) swallowing a session's exception is as in the code",
+    ev.assumptions = ["UDP: scripted recvfrom around the real enip_srv_udp; peers are distinguished by address only",
+                      "virtual socket around the real enip_srv_tcp; the listener (network.server_main) swallowing a session's exception is as in the code",
                       "time bound: 2 s + 10 ms per input octet per session (a session normally takes < 20 ms)",
                       "a tag may change only if a success reply to a write-class service (Write Tag [Fragmented], Set Attribute Single, bundle) was sent"]
     jobs = []
     for p in plans:
         lab = "%s/%s/%s" % (p["base"], p["part"], p["op"])
-        jobs.append((cfg, [p["b"]], lab + "/alone", p["intact"]))
-        jobs.append((cfg, [register, p["b"]], lab + "/after-register", p["intact"]))
-        jobs.append((cfg, [list(p["b"]) + list(read)], lab + "/then-read", p["intact"]))
+        jobs.append((cfg, [p["b"]], lab + "/alone", [p["wexp"]] if p["intact"] else []))
+        jobs.append((cfg, [register, p["b"]], lab + "/after-register", [p["wexp"]] if p["intact"] else []))
+        jobs.append((cfg, [list(p["b"]) + list(read)], lab + "/then-read", [p["wexp"]] if p["intact"] else []))
     valid = {p["base"]: p["valid"] for p in plans}
     nrand = 400 if ctx.quick else 6000
     for n in range(nrand):
@@ -101,7 +232,7 @@ def main(ctx):
                 i = rng.randrange(len(b))
                 b[i] ^= 1 << rng.randrange(8)
         chunks = [b] if rng.random() < 0.5 else [b[:len(b) // 2], b[len(b) // 2:]]
-        jobs.append((cfg, [register] + chunks if rng.random() < 0.5 else chunks, "random/%d/%d" % (kind, n), False))
+        jobs.append((cfg, [register] + chunks if rng.random() < 0.5 else chunks, "random/%d/%d" % (kind, n), intact_of(wmsgs, b)[0]))
     lines = core.pmap(exec_hostile, jobs, chunksize=8)
     for ln in lines:
         ev.case(key=json.dumps(ln["chunks"]), nontrivial=not ln["label"].startswith("random/0") or sum(len(c) for c in ln["chunks"]) > 24)
@@ -127,12 +258,16 @@ def main(ctx):
             ctx.violation("hostile_%s" % why, {"why": why, "label": ln["label"], "chunks": ln["chunks"], "events": ln["ev"], "after": ln["after"], "wall": ln["wall"]},
                           what="hostile input %s: %s; events %s" % (ln["label"], why, json.dumps([{k: (v if k != "b" else len(v)) for k, v in e.items()} for e in ln["ev"]][-6:])))
     ev.extra.update({"plans": len(plans), "sessions": len(lines), "random_inputs": nrand, "max_wall_s": max(ln["wall"] for ln in lines)})
+    udp_part(ctx, wd, rng, plans, valid, wmsgs)
 
 
 def replay(ctx, path):
     rec = json.load(open(path))
+    if rec.get("udp"):
+        print(json.dumps({"label": rec["label"], "why": rec["why"], "at": rec["at"]}))
+        return 1
     cfg = {"budget": 488, "tags": [{"name": [65], "type": "INT", "len": 3, "scalar": False, "cia": [2, 1, 1]},
                                    {"name": [66, 66], "type": "DINT", "len": 1, "scalar": True, "cia": [2, 1, 2]}]}
-    ln = exec_hostile((cfg, rec["chunks"], rec["label"], False))
+    ln = exec_hostile((cfg, rec["chunks"], rec["label"], []))
     print(json.dumps({k: ln[k] for k in ("ev", "after", "others", "finished", "wall")})[:1500])
     return 1
